@@ -168,7 +168,16 @@ pub fn run_phase(phase: &dyn Phase, seed: u64, range: (u64, u64), threads: usize
                         if run >= stop_at.load(Ordering::Relaxed) { break; }
                         let g = phase.generate(seed, run);
                         beats[w].1.store(run + 1, Ordering::Relaxed);
-                        let ex = phase.execute(&g, run, &mut st);
+                        // (the engines contain the library's panics themselves; one that arrives here is a bug of the
+                        // harness — say so at once instead of leaving a dead worker for the watchdog to find)
+                        let ex = match std::panic::catch_unwind(std::panic::AssertUnwindSafe(|| phase.execute(&g, run, &mut st))) {
+                            Ok(ex) => ex,
+                            Err(p) => {
+                                let msg = if let Some(s) = p.downcast_ref::<&str>() { s.to_string() } else if let Some(s) = p.downcast_ref::<String>() { s.clone() } else { "(no message)".to_string() };
+                                println!("HARNESS-ERROR: phase {} run {}: a panic escaped the engine's containment: {}", phase.name(), run, msg);
+                                std::process::exit(2);
+                            }
+                        };
                         beats[w].1.store(0, Ordering::Relaxed);
                         beats[w].0.fetch_add(1, Ordering::Relaxed);
                         let sc = g.sc;
